@@ -46,6 +46,9 @@ type exitRec struct {
 	st      *State
 	results []Val
 	what    string
+	nDefers int  // number of deferred calls registered when the panic was raised
+	ptyp    Term // dynamic type id of the panic value, when known
+	final   bool // panic raised while running deferred calls: not handled again
 }
 
 type FnExec struct {
@@ -74,6 +77,8 @@ type FnExec struct {
 	defers []*ssa.Defer
 	deferStack []deferred
 	havocked bool
+	inDefers bool
+	curBindings []ssa.Value
 	assertHit map[int]bool
 	locals []localAlloc // non-escaping stack variables: callees cannot touch them
 	usedG map[string]bool
@@ -379,8 +384,12 @@ func (x *FnExec) envFor(con *Contract, fn *ssa.Function, args []Val, results []V
 			}
 		}
 	}
+	env.lets = map[string]CExpr{}
 	for _, l := range con.Lets {
-		env.vars[l.Name] = env.Eval(l.E)
+		env.lets[l.Name] = l.E
+	}
+	if fn == x.fn {
+		x.addFreeVarNames(env)
 	}
 	return env
 }
@@ -436,6 +445,9 @@ func (x *FnExec) run() {
 		v := x.freshVal("fv_"+fv.Name(), fv.Type(), false)
 		x.vals[fv] = v
 		x.ctx.Assert(x.typeInv(v, fv.Type(), &alloc0))
+		if _, isPtr := fv.Type().(*types.Pointer); isPtr {
+			x.ctx.Assert(Gt(v.T, "0")) // a captured variable's cell exists
+		}
 	}
 	env := x.envFor(x.con, fn, args, nil, st.heaps, st.heaps, alloc0)
 	x.addFreeVarNames(env)
@@ -447,6 +459,9 @@ func (x *FnExec) run() {
 	pre = append(pre, x.globalInvs(env)...)
 	pre = append(pre, x.implicitModPre(x.con, env)...)
 	pre = append(pre, x.lemmaInstances(env)...)
+	if x.usesRecoverOrDefer() {
+		pre = append(pre, Eq(Sel(x.initHeap("ghost:panicking", false), "0"), "0"))
+	}
 	reach0 := x.ctx.Define("R_entry", SBool, And(pre...))
 	st.reach = reach0
 	x.obligeSat("vacuity", "vacuity", "requires and global invariants are satisfiable", reach0)
@@ -461,6 +476,14 @@ func (x *FnExec) run() {
 }
 
 func (x *FnExec) addFreeVarNames(env *Env) {
+	env.refOf = func(name string) (TVal, bool) {
+		for _, fv := range x.fn.FreeVars {
+			if fv.Name() == name {
+				return TVal{x.vals[fv], fv.Type()}, true
+			}
+		}
+		return TVal{}, false
+	}
 	for _, fv := range x.fn.FreeVars {
 		fv := fv
 		// free variables are pointers to the captured variable
@@ -1260,6 +1283,17 @@ func (x *FnExec) loopTouchesGhost(body map[*ssa.BasicBlock]bool) bool {
 	for blk := range body {
 		for _, in := range blk.Instrs {
 			if _, ok := in.(ssa.CallInstruction); ok {
+				return true
+			}
+		}
+	}
+	return false
+}
+
+func (x *FnExec) usesRecoverOrDefer() bool {
+	for _, b := range x.fn.Blocks {
+		for _, in := range b.Instrs {
+			if _, ok := in.(*ssa.Defer); ok {
 				return true
 			}
 		}
